@@ -14,7 +14,7 @@ package main
 //	fresh                              the shared trie is a new trie object over the same store and root (empty node cache)
 //	t <tid> ins <path> <hex> | del <path> | get <path> | iter | root | changes | count | deletes | save | savec
 //	        | missing | allmissing | hasmissing | pause <n> | sleep <microseconds>
-//	        | changesread   GetChanges and then read the returned records (known finding C16-getchanges-escape)
+//	        | changesread   GetChanges and then read the returned records as a caller would (fixed defect 4d3d8c8)
 //	        | setver        SetVersion(GetVersion()) - outside the property's operation list, never generated
 //
 // Outputs: as in suite c01 (ok <root> / ok <hex> / notpresent / nodenotfound / iterchild ...); `race` on every line
@@ -293,7 +293,7 @@ func c16Exec(mpt *util.MerklePatriciaTrie, db2 util.NodeDB, f []string) string {
 			root, changes, deletes, _ := mpt.GetChanges()
 			return fmt.Sprintf("ok %s n=%d d=%d", rootStr(root), len(changes), len(deletes))
 		case "changesread":
-			// GetChanges, then read the returned records as a caller would (known finding C16-getchanges-escape)
+			// GetChanges, then read the returned records as a caller would (fixed defect 4d3d8c8)
 			root, changes, deletes, _ := mpt.GetChanges()
 			h := 0
 			for _, c := range changes {
@@ -544,52 +544,6 @@ func raceSummary(stderr string) string {
 	return strings.Join(keep, " | ")
 }
 
-// getChangesEscape is the matcher of known finding C16-getchanges-escape: the case reads the records returned by
-// GetChanges (op changesread) and one side of the reported race is the harness itself reading such a record, or
-// the hash of the node the record points to (frames: only Node.GetHash/GetHashBytes above a main.c16... frame),
-// while the other side is inside core/util (ChangeCollector.AddChange updating the record in place, or the
-// initialisation of the node that AddChange then publishes through the record). Any race whose both sides are
-// inside the trie's own methods is not accepted.
-func getChangesEscape(ops []string, summary string) bool {
-	has := false
-	for _, op := range ops {
-		f := strings.Fields(op)
-		if len(f) >= 3 && f[0] == "t" && f[2] == "changesread" {
-			has = true
-		}
-	}
-	parts := strings.Split(summary, " | ")
-	if !has || len(parts) < 3 {
-		return false
-	}
-	frames := func(p string) []string {
-		if i := strings.Index(p, ": "); i >= 0 {
-			p = p[i+2:]
-		}
-		fs := strings.Split(p, " < ")
-		for i := range fs {
-			fs[i] = strings.TrimSpace(fs[i])
-		}
-		return fs
-	}
-	harnessSide := func(fs []string) bool {
-		for _, f := range fs {
-			if strings.HasPrefix(f, "main.c16") {
-				return true
-			}
-			if !(strings.HasPrefix(f, "util.(*") && (strings.HasSuffix(f, ").GetHash") || strings.HasSuffix(f, ").GetHashBytes"))) {
-				return false
-			}
-		}
-		return false
-	}
-	utilSide := func(fs []string) bool {
-		return len(fs) > 0 && strings.HasPrefix(fs[0], "util.") && !harnessSide(fs)
-	}
-	a, b := frames(parts[1]), frames(parts[2])
-	return (harnessSide(a) && utilSide(b)) || (harnessSide(b) && utilSide(a))
-}
-
 func runC16(ops []string) (res CaseResult) {
 	all := func(s string) []string {
 		o := make([]string, len(ops))
@@ -634,9 +588,6 @@ func runC16(ops []string) (res CaseResult) {
 			res.Outs = all("race")
 			sum := raceSummary(stderr.String())
 			res.Fails = []string{"DATA RACE reported by the race detector: " + sum}
-			if getChangesEscape(ops, sum) {
-				res.Finding = "C16-getchanges-escape"
-			}
 			return res
 		}
 		if ctx.Err() != nil {
@@ -1014,8 +965,8 @@ func genC16(r *rand.Rand, tier string, idx int) []string {
 					line = "savec"
 				case x < 60:
 					line = "changes"
-					if idx%16 == 3 {
-						line = "changesread" // known finding C16-getchanges-escape
+					if idx%2 == 1 {
+						line = "changesread" // also read the returned records (fixed defect 4d3d8c8)
 					}
 				case x < 75:
 					line = "count"
